@@ -4,7 +4,7 @@
 From Verif Require Import Lib.Base Lib.Utf8 Lib.GoStr Model.Cfg Gen.Tables Gen.Options Model.Sets Model.Percent
   Model.Url Model.Host Model.Machine Model.Api Model.Preds.
 From Verif Require Import Proofs.SetsProofs Proofs.Cleaning Proofs.PhaseLemmas Proofs.RecordInv
-  Proofs.RoundTripBase Proofs.RoundTripPhases Proofs.RoundTripOpaque Proofs.RoundTripHostless.
+  Proofs.RoundTripBase Proofs.RoundTripPhases Proofs.RoundTripOpaque Proofs.RoundTripHostless Proofs.RoundTripHostShape.
 From Coq Require Import Lia ZifyBool ZifyN ZifyNat.
 
 Local Arguments N.mul : simpl never.
@@ -166,15 +166,14 @@ Record HostFacts (c : cfg) (u : url) (h : str) : Prop := {
   HF_file : str_eqb (u_scheme u) s_file = true -> drive_ok c u = true /\ str_eqb h s_localhost = false
 }.
 
-Lemma host_facts c u h : CfgRT c -> Inv c u -> u_opaque u = false -> u_host u = Some h -> stable_b c u = true ->
-  HostFacts c u h.
+Lemma host_facts idna_raw c u h : CfgRT c -> Inv c u -> u_opaque u = false -> u_host u = Some h ->
+  stable_b c u = true -> host_fixed idna_raw c u -> HostFacts c u h.
 Proof.
-  intros R Hi Ho Hh Hst.
+  intros R Hi Ho Hh Hst Hfix.
+  destruct (host_scan_derived idna_raw c u h (R_pre c R) Hi Hh Hfix) as [Hscan [Hbr H64]].
   unfold stable_b in Hst. rewrite Ho in Hst. apply andb_true_iff in Hst. destruct Hst as [Hdp Hst].
-  unfold list_stable in Hst. apply andb_true_iff in Hst. destruct Hst as [Hst Hshape].
+  unfold list_stable in Hst.
   apply andb_true_iff in Hst. destruct Hst as [Hst Hfile]. apply andb_true_iff in Hst. destruct Hst as [Hdots Hbs].
-  unfold host_shape in Hshape. rewrite Hh in Hshape. apply andb_true_iff in Hshape. destruct Hshape as [Hshape H64].
-  apply andb_true_iff in Hshape. destruct Hshape as [Hscan Hbr]. apply negb_true_iff in Hbr, H64.
   destruct (I_host _ _ Hi h Hh) as [Hok Hpr].
   constructor.
   - intros Hp. unfold dport_ok in Hdp. rewrite Hp in Hdp. apply N.eqb_eq in Hdp. exact Hdp.
@@ -237,7 +236,7 @@ Section HostNonFile.
   Proof.
     intros Hi Ho Hhost Hnf Hst Hfix Hh.
     destruct (u_host u) as [h|] eqn:Eh; [clear Hhost|congruence].
-    pose proof (host_facts c u h R Hi Ho Eh Hst) as HF.
+    pose proof (host_facts idna_raw c u h R Hi Ho Eh Hst Hfix) as HF.
     pose proof (I_scheme _ _ Hi) as Hsch.
     pose proof (I_user _ _ Hi) as Huser. pose proof (I_pass _ _ Hi) as Hpass.
     set (sp := IsSpecialScheme c u) in *.
